@@ -233,10 +233,10 @@ def random_geom(rng, typ=None, style="realistic") -> dict:
 
 
 def is_shapely_valid(geom) -> bool:
-    from soundevent.geometry.conversion import geometry_to_shapely
+    from soundevent.geometry import conversion
 
     try:
-        s = geometry_to_shapely(geom)
+        s = getattr(conversion.geometry_to_shapely, "__rv_orig__", conversion.geometry_to_shapely)(geom)
         return bool(s.is_valid) and not s.is_empty
     except Exception:
         return False
